@@ -51,9 +51,7 @@ def r1_concrete_tags(ctx):
     b = F.body("quiver_core::compatibility::compute_compatible_concrete_types")
     fl = Flow(b)
     fld = Flow(b, through_named=True)
-    pat_param = [l["i"] for l in b.locals if l.get("name") == "pattern_id" and l["i"] <= b.mir["argc"]]
-    if not pat_param:
-        raise CheckError("R-C08-1: parameter pattern_id not found")
+    pat_param = [b.param_by_type(lambda ty: ty == "usize", what="pattern type id parameter")]
     compat_calls = [(bi, t) for bi, t in b.calls_to("types::is_compatible")]
     compat_blocks = [bi for bi, _ in compat_calls]
     inserts = {}
@@ -179,7 +177,7 @@ def r2_tables_describe_whole_program(ctx):
             has_compute = any(any(c.endswith(w) for w in want[fname]) for c in calls)
             if any(c.endswith("Vec::new") for c in calls):
                 # documented compile-time path: empty tables only under param_compat == false
-                pc = [l["i"] for l in body.locals if l.get("name") == "param_compat"]
+                pc = [l["i"] for l in body.params() if l["ty"] == "bool"]
                 ok = ok and bool(pc) and fname.endswith("param_compatibility")
             ctx.check(ok and has_compute, R, site, "%s <- %s" % (fname, sorted({c.split('::')[-1] for c in calls})),
                       "%s is not the result of %s (sources: %s): stale or partial runtime type tables" % (fname, want[fname], calls), body.loc(bi, si))
